@@ -268,3 +268,31 @@ Definition lookup_val (a : lookup_args) : val :=
   let '(p, tags, dr, dt, dn) := a in lres_val (lookup p tags dr dt dn).
 Definition lookup_nohdr_val (a : option str * bool) : val :=
   lres_val (lookup_nohdr (fst a) (snd a)).
+
+(* ---- histories of calls on ONE header object ---------------------------------------------------
+   The only state of an AcceptLanguageValidHeader is `_header_value`, `_parsed` (and `_parsed_nonzero`
+   derived from it once in __init__).  basic_filtering builds new lists from `self.parsed`; lookup works
+   on `list(self.parsed)`; neither assigns to the instance.  A step therefore hands the parsed list on
+   unchanged; the observation after each call is (answer, `.parsed` as it reads afterwards). *)
+Inductive hop :=
+| HFilter (tags : list str)
+| HLookup (tags : list str) (default_range default_tag : option str) (dflt_none : bool).
+
+Definition hop_answer (p : parsed) (o : hop) : val :=
+  match o with
+  | HFilter tags => bf_val p tags
+  | HLookup tags dr dt dn => lres_val (lookup p tags dr dt dn)
+  end.
+
+Definition hstep (p : parsed) (o : hop) : parsed * val := (p, hop_answer p o).
+
+Definition parsed_val (p : parsed) : val :=
+  VList (map (fun e => VList [VStr (fst e); VInt (Z.of_N (snd e))]) p).
+
+Fixpoint run_history (p : parsed) (ops : list hop) : list val :=
+  match ops with
+  | [] => []
+  | o :: ops' => let '(p', a) := hstep p o in VList [a; parsed_val p'] :: run_history p' ops'
+  end.
+
+Definition history_val (c : parsed * list hop) : val := VList (run_history (fst c) (snd c)).
